@@ -371,6 +371,22 @@ def spec_call(self, name, e, st):
                 s.env[k] = v
         s.ghost["__old__"] = None
         return one(e.args[0], s)
+    if name == "at_loop_entry":
+        # value of an expression in the state in which the (innermost) loop was entered; bound variables and locals that the loop does
+        # not assign keep their current meaning
+        le = st.ghost.get("__loop_entry__")
+        if le is None:
+            raise Unsupported("at_loop_entry() outside a loop invariant")
+        s = le.fork()
+        for k, v in st.env.items():
+            if k not in s.env or k.startswith("_") or v.ty != s.env[k].ty:
+                s.env[k] = v
+        for k, v in st.env.items():          # variables bound by enclosing quantifiers of the specification
+            if k not in le.env:
+                s.env[k] = v
+        s.ghost["__old__"] = st.ghost.get("__old__")
+        s.ghost["__loop_entry__"] = None
+        return one(e.args[0], s)
     if name in SPEC_FUNCS:
         fn, atys, rty = SPEC_FUNCS[name]
         if name in self.c.get("opaque_funcs", ()):
